@@ -11,7 +11,8 @@ use crate::codec::aead::CipherMethod;
 pub fn new_encoder(kind: CipherKind, key: &[u8], salt: &[u8]) -> Result<ChunkEncoder, InvalidLength> {
     let key = hkdfsha1(key, salt)?;
     let auth = new_auth(kind, &key);
-    Ok(ChunkEncoder::new(0xffff, auth))
+    // SIP004: the payload of a chunk is at most 0x3FFF bytes (the limit below also counts both tags and the length)
+    Ok(ChunkEncoder::new(0x3fff + 16 + 2 + 16, auth))
 }
 
 pub fn new_decoder(kind: CipherKind, key: &[u8], salt: &[u8]) -> Result<ChunkDecoder, InvalidLength> {
